@@ -44,6 +44,8 @@ def NL_allowed(lat: float, eps: float = 1e-9):
     """set of NL values acceptable at lat (both neighbours within eps of a transition)"""
     a = abs(lat)
     s = {NL(a)}
+    if a == 87.0:
+        return s          # DO-260B defines NL(+-87) = 2 explicitly: nothing is ambiguous at the exact value
     if near_transition(a, eps):
         s.add(NL(max(a - 2 * eps, 0.0)))
         s.add(NL(a + 2 * eps))
